@@ -866,21 +866,8 @@ def ast_request(c, r):
 
 
 # ------------------------------------------------------------------------------------------------
-def run(chk: core.Check) -> int:
-    chk.lean(MODULE, THEOREMS)
-    chk.trusted_base += [
-        "hand-written models lean/CddVerif/Model/DocTransCst.lean (find_cst_at_ast, maybe_replace_doc_str_in_function_or_class, maybe_replace_function_return_type, "
-        "maybe_replace_function_args, get_doc_str, reindent_block_with_pass_body, doctransify_cst, doctrans as an effect trace) and Model/DocTransAst.lean (DocTrans on the flat AST), "
-        "tied to the code by exact comparison of node lists / written bytes / effect traces / AST JSON",
-        "CPython's ast.parse of the re-indented header (`ast_parse(...).body[0]`) is an oracle parameter of the model; expressions are compared and printed through ast.unparse",
-        "the AST-level stage (ast_parse, DocTrans.visit, fix_missing_locations, cmp_ast) enters the CST model only through the recorded definitions of the new tree (FnEdit); "
-        "harness/props/c07.py:edits_of re-implements the `walk`/`hasattr(_location)`/`isinstance` filter of doctransify_cst",
-        "ast.parse line numbers link AST and CST; IO errors during the final write are outside the model",
-        "model of lean/CddVerif/Model/Cst.lean (C09) for cst_parse",
-    ]
-    if not core.DRIVER.exists():
-        raise core.HarnessError("Lean driver not built")
-    cases = gen_cases(chk)
+def process_batch(chk: core.Check, cases, acc):
+    """real runs, model runs, correspondence and the property's oracle for one batch of cases"""
     res = core.pmap(impl_one, cases, chunksize=16)
     for c, r in zip(cases, res):
         if "harness_error" in r:
@@ -905,13 +892,15 @@ def run(chk: core.Check) -> int:
             reind[pr["value"]] = pr["key"]
             if "sig" in pr:
                 sigs[json.dumps(pr["sig"]["args"], sort_keys=True)] = pr["args_text"]
-    sig_items = sorted(sigs.items())
+    sig_items = sorted((k, v) for k, v in sigs.items() if k not in acc["sigs_seen"])
+    acc["sigs_seen"].update(k for k, _ in sig_items)
     unp_out = core.model_batch([{"op": "c07.unparse_args", "args": json.loads(a)} for a, _ in sig_items])
-    re_items = sorted(reind.items())
+    re_items = sorted((k, v) for k, v in reind.items() if k not in acc["reind_seen"])
+    acc["reind_seen"].update(k for k, _ in re_items)
     re_out = core.model_batch([{"op": "c07.reindent", "s": v} for v, _ in re_items])
 
     # ---- correspondence ---------------------------------------------------------------------------------------------
-    n_dis = {"splice": 0, "trace": 0, "ast": 0, "unparse_args": 0, "reindent": 0}
+    n_dis = acc["n_dis"]
     for k, m in zip(splice_idx, splice_out):
         c, r = cases[k], res[k]
         prints = [e[1] for e in r["trace"] if e[0] == "print"]
@@ -953,18 +942,12 @@ def run(chk: core.Check) -> int:
         if m.get("r") != key:
             n_dis["reindent"] += 1
             chk.disagreement("C07 correspondence: reindentWithPass vs reindent_block_with_pass_body", {"value": v}, key, m.get("r", m))
-    chk.oblige("correspondence doctransifyLoop = doctransify_cst on %d splices" % len(splice_idx), "correspondence", n_dis["splice"] == 0, "%d disagreements" % n_dis["splice"])
-    chk.oblige("correspondence doctrans effect trace + written bytes on %d runs" % len(usable), "correspondence", n_dis["trace"] == 0, "%d disagreements" % n_dis["trace"])
-    chk.oblige("correspondence docTrans (flat AST) = DocTrans.visit on %d modules" % len(ast_reqs), "correspondence", n_dis["ast"] == 0, "%d disagreements" % n_dis["ast"])
-    chk.oblige("correspondence unparseArgs = ast.unparse(arguments) on %d signatures" % len(sig_items), "correspondence", n_dis["unparse_args"] == 0,
-               "%d disagreements" % n_dis["unparse_args"])
-    chk.oblige("correspondence reindentWithPass on %d headers" % len(re_items), "correspondence", n_dis["reindent"] == 0, "%d disagreements" % n_dis["reindent"])
-
     # ---- the property's oracle on the real files; witnesses ---------------------------------------------------------------
-    from collections import Counter
-
-    kinds, outcomes, feats, cfgs, errs, change_kinds = Counter(), Counter(), Counter(), Counter(), Counter(), Counter()
-    witness_sigs = {}
+    kinds, outcomes, feats, cfgs, errs, change_kinds, witness_sigs = (acc[k] for k in ("kinds", "outcomes", "feats", "cfgs", "errs", "change_kinds", "witness_sigs"))
+    acc["n_splice"] += len(splice_idx)
+    acc["n_trace"] += len(usable)
+    acc["n_ast"] += len(ast_reqs)
+    acc["edit_fail"] += sum(1 for r in res if r["edit_error"] is not None)
     for c, r in zip(cases, res):
         kinds[c["kind"]] += 1
         cfgs["%s/%s/%s" % (c["fmt"], "ta" if c["ta"] else "no-ta", "nowrap" if c["nww"] else "wrap")] += 1
@@ -986,6 +969,39 @@ def run(chk: core.Check) -> int:
         for sig, text in fails:
             chk.failure(sig, "doctrans(%s, type_annotations=%s, no_word_wrap=%s): %s" % (c["fmt"], c["ta"], c["nww"], text),
                         {"case": {k: c[k] for k in ("src", "fmt", "ta", "nww") if k in c} | ({"missing": True} if c.get("missing") else {}), "after": r["after"], "error": r["error"]})
+
+
+def run(chk: core.Check) -> int:
+    chk.lean(MODULE, THEOREMS)
+    chk.trusted_base += [
+        "hand-written models lean/CddVerif/Model/DocTransCst.lean (find_cst_at_ast, maybe_replace_doc_str_in_function_or_class, maybe_replace_function_return_type, "
+        "maybe_replace_function_args, get_doc_str, reindent_block_with_pass_body, doctransify_cst, doctrans as an effect trace) and Model/DocTransAst.lean (DocTrans on the flat AST), "
+        "tied to the code by exact comparison of node lists / written bytes / effect traces / AST JSON",
+        "CPython's ast.parse of the re-indented header (`ast_parse(...).body[0]`) is an oracle parameter of the model; expressions are compared and printed through ast.unparse",
+        "the AST-level stage (ast_parse, DocTrans.visit, fix_missing_locations, cmp_ast) enters the CST model only through the recorded definitions of the new tree (FnEdit); "
+        "harness/props/c07.py:edits_of re-implements the `walk`/`hasattr(_location)`/`isinstance` filter of doctransify_cst",
+        "ast.parse line numbers link AST and CST; IO errors during the final write are outside the model",
+        "model of lean/CddVerif/Model/Cst.lean (C09) for cst_parse",
+    ]
+    if not core.DRIVER.exists():
+        raise core.HarnessError("Lean driver not built")
+    cases = gen_cases(chk)
+    from collections import Counter
+
+    acc = {"n_dis": {"splice": 0, "trace": 0, "ast": 0, "unparse_args": 0, "reindent": 0}, "n_splice": 0, "n_trace": 0, "n_ast": 0, "sigs_seen": set(), "reind_seen": set(),
+           "kinds": Counter(), "outcomes": Counter(), "feats": Counter(), "cfgs": Counter(), "errs": Counter(), "change_kinds": Counter(), "witness_sigs": {},
+           "edit_fail": 0}
+    batch = 4000  # bounds the memory held at once (CST before/after, ASTs, traces of every run)
+    for i in range(0, len(cases), batch):
+        process_batch(chk, cases[i:i + batch], acc)
+    n_dis = acc["n_dis"]
+    chk.oblige("correspondence doctransifyLoop = doctransify_cst on %d splices" % acc["n_splice"], "correspondence", n_dis["splice"] == 0, "%d disagreements" % n_dis["splice"])
+    chk.oblige("correspondence doctrans effect trace + written bytes on %d runs" % acc["n_trace"], "correspondence", n_dis["trace"] == 0, "%d disagreements" % n_dis["trace"])
+    chk.oblige("correspondence docTrans (flat AST) = DocTrans.visit on %d modules" % acc["n_ast"], "correspondence", n_dis["ast"] == 0, "%d disagreements" % n_dis["ast"])
+    chk.oblige("correspondence unparseArgs = ast.unparse(arguments) on %d signatures" % len(acc["sigs_seen"]), "correspondence", n_dis["unparse_args"] == 0,
+               "%d disagreements" % n_dis["unparse_args"])
+    chk.oblige("correspondence reindentWithPass on %d headers" % len(acc["reind_seen"]), "correspondence", n_dis["reindent"] == 0, "%d disagreements" % n_dis["reindent"])
+    kinds, outcomes, feats, cfgs, errs, change_kinds, witness_sigs = (acc[k] for k in ("kinds", "outcomes", "feats", "cfgs", "errs", "change_kinds", "witness_sigs"))
     # witnesses: the Lean witnesses' outputs and the known findings' inputs, re-verified on the real code
     stale = []
     for wid, fids, src, cfg, hdr_line in WITNESSES:
@@ -1008,9 +1024,9 @@ def run(chk: core.Check) -> int:
     for fid in stale:
         chk.notes.append("finding %s: its witness no longer fails on the real code (stale)" % fid)
     chk.coverage.update({"input_kinds": dict(kinds), "outcomes": dict(outcomes), "configs": dict(cfgs), "features": dict(feats), "errors": dict(errs),
-                         "cst_changes": dict(change_kinds), "splices_compared": len(splice_idx), "ast_level_compared": len(ast_reqs),
-                         "signatures_compared": len(sig_items), "stale_findings": stale,
-                         "edit_extraction_failed": sum(1 for r in res if r["edit_error"] is not None)})
+                         "cst_changes": dict(change_kinds), "splices_compared": acc["n_splice"], "ast_level_compared": acc["n_ast"],
+                         "signatures_compared": len(acc["sigs_seen"]), "stale_findings": stale,
+                         "edit_extraction_failed": acc["edit_fail"]})
     return chk.finish("inputs: generated modules (functions, async functions, methods, nested definitions, classes; defaults, annotations, *args, **kwargs, "
                       "keyword-only, positional-only, multi-line headers, decorators with parentheses, return annotations with parentheses, stubs, three docstring "
                       "styles or none, comments, 2-space / tab / 4-space bodies) x 12 configurations; failure injection in the CST stage; malformed files; "
